@@ -266,7 +266,11 @@ class Indicator(_DomainObject):
             except AttributeError:
                 pat_ver = '2.1'
 
-            errors = run_validator(self.get('pattern'), pat_ver)
+            try:
+                errors = run_validator(self.get('pattern'), pat_ver)
+            except Exception as exc:
+                # the validator is not robust against every malformed input
+                raise InvalidValueError(self.__class__, 'pattern', str(exc)) from exc
             if errors:
                 raise InvalidValueError(self.__class__, 'pattern', str(errors[0]))
 
